@@ -132,7 +132,7 @@ func (w *cfgWriter) body(b m.BodyM, level int, selfOK bool) {
 		for i := 0; i < cnt; i++ {
 			items = append(items, item{"block", n})
 		}
-		if !w.o.NoDynamic && b.Ext != nil && b.Ext.Dynamic && g.Chance(12) {
+		if !w.o.NoDynamic && b.Ext != nil && b.Ext.Dynamic && g.Chance(25) {
 			items = append(items, item{"dynamic", n})
 		}
 	}
